@@ -30,6 +30,15 @@ class C16(Machine):
         sc = {"property": self.ID, "run_seed": run_seed, "tier": tier, "net": net, "config": None, "walk_seed": None, "reorder_seed": None, "ops_seed": run_seed, "params": {}}
         prng = sub_rng(run_seed, "params")
         sc["params"] = {"len": prng.randint(2, 10), "p_fault": prng.choice([0.15, 0.25, 0.4]), "kinds": prng.choice([["pickle"], ["reclaim"], ["evict"], ["pickle", "reclaim", "evict"], ["pickle", "reclaim", "evict"]])}
+        if prng.random() < 0.15:
+            # skip-raw history: un-minified candidates (spurious ones survive) and seeds on the
+            # expanded nodes, then skipping, then seeds of every node; the fault lands between
+            # the two phases.  Skip nodes prune by what other nodes' caches say, so a cache that
+            # is dropped or kept must not change the outcome.
+            sc["params"]["mode"] = "skip_raw"
+            sc["params"]["kinds"] = prng.choice([["reclaim"], ["pickle"], ["reclaim", "pickle"], ["evict"]])
+            sc["net"] = gen_network(sub_rng(run_seed, "net-skip-raw"), {"maa_cascade": 3, "maa": 1, "modular": 1}, nmax=self.NMAX.get(tier, 6), fmts=self.FMTS, shuffle_order=True)
+            return sc
         if prng.random() < 0.45:
             # a non-default configuration must survive the round trip as well: later answers
             # (limit errors, candidate lists) depend on it
@@ -71,8 +80,16 @@ class C16(Machine):
         step = 0
         i = 0
         hist_len = 0
+        script = None
+        if not replay and p.get("mode") == "skip_raw":
+            script = self.skip_raw_script(B, sc, rng, frng)
         while step < STEP_CAP and not vio:
-            if replay:
+            if script is not None:
+                if i >= len(script):
+                    break
+                op = script[i]
+                i += 1
+            elif replay:
                 if i >= len(sc["ops"]):
                     break
                 op = sc["ops"][i]
@@ -121,6 +138,36 @@ class C16(Machine):
         res["nontrivial"] = n_faults > 0 and n_compared > 0
         res["case_key"] = res["log_digest"]
         return res
+
+    def skip_raw_script(self, B, sc, rng, frng):
+        """Build the whole history on a scratch world first (explicit ops)."""
+        w = self.make_world(sc)
+        if w.log[0]["out"]["cls"] != "ok":
+            return []
+        ops = [{"op": "expand_one", "node": w.space_of(0)}]
+        w.apply(ops[0])
+        for _ in range(rng.randint(1, 4)):
+            stubs = w.stubs()
+            if not stubs:
+                break
+            op = {"op": "expand_one", "node": w.space_of(rng.choice(stubs))}
+            w.apply(op)
+            ops.append(op)
+        exp = [i for i in w.node_ids() if w.sd.node_data(i)["expanded"]]
+        rng.shuffle(exp)
+        for i in exp[:4]:
+            for op in ({"op": "candidates", "node": w.space_of(i), "compute": True, "greedy": False, "sim": False}, {"op": "seeds", "node": w.space_of(i), "compute": True, "fallback": False}):
+                w.apply(op)
+                ops.append(op)
+        op = {"op": "skip_remaining"}
+        w.apply(op)
+        ops.append(op)
+        ops.append(self.fault_op(w, frng, sc["params"]["kinds"]))
+        ids = list(w.node_ids())
+        rng.shuffle(ids)
+        for i in ids[:12]:
+            ops.append({"op": "seeds", "node": w.space_of(i), "compute": True, "fallback": False})
+        return ops[: STEP_CAP - 1]
 
     def compare(self, A, B, op, oa, ob, step, site):
         if oa is not None:
